@@ -97,6 +97,9 @@ impl SymbolSupplier for GatedSupplier {
         let want_id = module.debug_identifier().map(|d| d.breakpad().to_string());
         for m in self.modules.iter() {
             if m.code_file == cf && (want_id.is_none() || !m.has_cv || want_id.as_deref() == Some(&m.breakpad_id())) {
+                if m.sym_kind == "load error" {
+                    return Err(SymbolError::LoadError(std::io::Error::other("simulated read failure")));
+                }
                 return match &m.sym {
                     Some(bytes) => Ok(LocateSymbolsResult {
                         symbols: SymbolFile::from_bytes(bytes)?,
